@@ -1,5 +1,5 @@
 """Which engine decides which property."""
-from . import book, common as C
+from . import book, sim, common as C
 
 BOOK_ASSUMPTIONS = [
     "theorems are about the hand-written Lean model (lean/Bourse/Model); the model is tied to /repo by running both on the same histories on every invocation",
@@ -67,3 +67,30 @@ ENGINES = {}
 _b = BookEngine()
 for p in ("C01", "C02", "C03", "C04", "C05", "C06", "C07", "C08", "C10", "C11", "C12", "C13", "C14", "C15"):
     ENGINES[p] = _b
+
+
+class SimEngine:
+    def build(self):
+        ok, log = C.build_harness(("drive",))
+        if not ok:
+            return ok, log
+        return C.build_lean(["driver"])
+
+    def check(self, prop, tier, seed, verdict, workdir):
+        return getattr(sim, "check_" + prop.lower())(tier, seed, verdict, workdir)
+
+    def replay(self, prop, path):
+        import json
+        obj = json.load(open(path))
+        print(json.dumps(obj, indent=1)[:3000])
+        cmd = obj.get("replay_cmd")
+        if cmd:
+            import subprocess
+            print("$", cmd)
+            return subprocess.call(cmd, shell=True, cwd=C.VERIF)
+        return 0
+
+
+_s = SimEngine()
+for p in ("C09",):
+    ENGINES[p] = _s
